@@ -64,7 +64,7 @@ func genCase(t *rapid.T) Case {
 	}
 	// the application keeps a plan cache: every connection parsing a text gets the same statement objects
 	c.Cfg.SharePlans = rapid.IntRange(0, 2).Draw(t, "plan-cache") == 0
-	c.Staller = rapid.SampledFrom([]string{"", "", "oversized-partial", "message-partial"}).Draw(t, "staller")
+	c.Staller = rapid.SampledFrom([]string{"", "", "", "oversized-partial", "message-partial", "connected-silent", "startup-partial", "ssl-request-only"}).Draw(t, "staller")
 	if rapid.Bool().Draw(t, "owned-schedule") {
 		for len(c.Schedule) < total {
 			i := rapid.IntRange(0, n-1).Draw(t, "who")
